@@ -140,11 +140,11 @@ def is_faulted(rec):
 
 
 # --------------------------------------------------------------------------- one run
-def execute(plan, want_refs=True, timeout=120.0):
+def execute(plan, want_refs=True, timeout=120.0, coverage=False):
     """run the history in a child, the references in further children, evaluate the oracles.
     Returns a dict with violations, digests and reach statistics."""
     prop = plan["property"]
-    hist = fork_call(lambda: engine.run_history(plan), timeout)
+    hist = fork_call(lambda: engine.run_history(plan, coverage), timeout)
     recs = hist["records"]
     idx = engine.index_steps(plan)
     by_id = {r["id"]: r for r in recs}
@@ -246,7 +246,7 @@ def execute(plan, want_refs=True, timeout=120.0):
     for r in recs:
         if r.get("discarded"):
             discarded[r["discarded"]] = discarded.get(r["discarded"], 0) + 1
-    return {"discarded": discarded, "violations": violations, "stats": stats, "schedule_digest": sched, "result_digest": resd,
+    return {"coverage": hist.get("coverage", []), "discarded": discarded, "violations": violations, "stats": stats, "schedule_digest": sched, "result_digest": resd,
             "probes": hist["probes"], "disk_probes": hist["disk_probes"], "records": recs,
             "open_handles": hist["open_handles"]}
 
